@@ -118,6 +118,12 @@ def uses_vars(e):
     return any(isinstance(x, tuple) and uses_vars(x) for x in e[1:])
 
 
+def has_paren(e):
+    if e[0] == "paren":
+        return True
+    return any(isinstance(x, tuple) and has_paren(x) for x in e[1:])
+
+
 def programs_for(feat, e):
     """Binding-position programs: (position, declared type, source, expectation) where expectation in accept|reject."""
     T = ty_of(e)
@@ -136,7 +142,8 @@ def programs_for(feat, e):
             return "const C: %s = %s\n" % (decl_ty, src)
         raise ValueError(pos)
 
-    positions = ["let", "return", "arg"] + ([] if uses_vars(e) else ["const"])
+    # const initialisers may not contain variables - nor parentheses (RFC 008 phase 1 lists Expr::Paren among the disallowed constructs)
+    positions = ["let", "return", "arg"] + ([] if uses_vars(e) or has_paren(e) else ["const"])
     for pos in positions:
         out.append((pos, T, prog(pos, T), "accept"))
         if T in ("float", "bool"):
